@@ -1,6 +1,7 @@
 import DV.Model.Facade
 import DVP.Lemmas.LoopBound
 import DVP.Properties.C03
+import DVP.Lemmas.Run
 /-!
 # C18 — the `solve_ivp` facade honours its arguments and agrees with the object API
 
@@ -69,6 +70,34 @@ theorem t_eval_calls_cover_spans (cfg : Cfg ℚ) (heps : 0 < cfg.eps) (htol : 0 
     (calls : List DVP.C03.Call) (s : Sys ℚ) (hdt : s.dt ≠ 0)
     (h : ∀ c ∈ calls, OracleOK c.orc ∧ CbsNonzero c.orc ∧ NoCbAssign c.orc) : DVP.C03.GridOK cfg s calls :=
   DVP.C03.call_sequence_covers_spans cfg heps htol hhalf calls s hdt h
+
+/-- **With `t_eval` the facade agrees with driving the object API**: the per-time loop of `solve_ivp` (`DV.Run.tevalLoop`: for
+each requested time `integrate(t)`, then take `ode_system[-1]`) leaves exactly the system that the same sequence of `integrate(t)`
+calls leaves (whole-run model `DV.Run`, fixed-step methods, states included) -/
+theorem t_eval_loop_is_the_object_api {V : Type} (cfg : Cfg ℚ) (add : V → V → V) (inc : ℚ → V → ℚ → V) (fuel : Nat)
+    (s : DV.Run.SysY ℚ V) (times : List ℚ) :
+    (DV.Run.tevalLoop cfg add inc fuel s times).1 = DV.Run.calls cfg add inc fuel s times :=
+  DVP.Run.tevalLoop_sys cfg add inc fuel times s
+
+/-- **Times and states returned for `t_eval` pair up**: one column per requested time, and every returned column `(t, y)` is a
+recorded sample of the underlying system - the state that belongs to that time - whatever the span, the direction and the number
+of steps between the requested times -/
+theorem t_eval_columns_are_recorded_samples {V : Type} (cfg : Cfg ℚ) (add : V → V → V) (inc : ℚ → V → ℚ → V) (fuel : Nat)
+    (t0 tf dt : ℚ) (y0 : V) (sortedTEval : List ℚ) :
+    let r := DV.Run.solveIvpTEval cfg add inc fuel t0 tf dt y0 sortedTEval
+    r.2.length = sortedTEval.length ∧ ∀ c ∈ r.2, c ∈ DVP.Run.samples r.1 := by
+  have h0 : DVP.Run.StepsOK add inc (DV.Run.construct t0 tf dt y0).sys.ts (DV.Run.construct t0 tf dt y0).ys := by
+    unfold DV.Run.construct DV.Loop.construct
+    split <;> simp [DVP.Run.StepsOK]
+  have := DVP.Run.tevalLoop_columns cfg add inc fuel (visitOrder sortedTEval t0 tf) _ h0
+  refine ⟨?_, this.2⟩
+  unfold DV.Run.solveIvpTEval
+  rw [this.1, visit_order_direction]
+  split <;> simp
+
+/-- non-vacuity: Euler on `y' = y` backward over `(1, 0)`, `t_eval = [1/4, 3/4]` visited as `3/4, 1/4` -/
+example : (DV.Run.solveIvpTEval (α := ℚ) (V := ℚ) { eps := 1/2^50, tolEps := 1/2^47, half := 1/2 } (· + ·) (fun _ y h => y * h) 20
+    1 0 (1/4) 1 [1/4, 3/4]).2 = [(3/4, 3/4), (1/4, 27/64)] := by decide +kernel
 
 example : bindArgs ["t", "y", "a", "b", "c"] [1, 2, 3] = [("a", 1), ("b", 2), ("c", 3)] ∧
     clipStep (-3/10 : ℚ) (1/100) (1/10) = -1/10 ∧ Facade.initialDt (1 : ℚ) (1/10) 0 = 1/10 ∧
